@@ -339,6 +339,7 @@ impl Polynomial<Cmplx> {
             } else {
                 Cmplx::polar( 1.0 + abx, iter as f64 )
             };
+            if !( dx.real.is_finite() && dx.imag.is_finite() ) { return; } // cannot improve x any further
             let x1 = *x - dx;
             if *x == x1 { return; }
             if iter % MT != 0 { *x = x1; } else { *x -= dx * frac[ iter / MT ]; }
